@@ -8,7 +8,6 @@ import (
 	"fmt"
 	"os"
 	"path/filepath"
-	"strings"
 
 	"github.com/JunNishimura/Goit/internal/file"
 	"github.com/JunNishimura/Goit/internal/object"
@@ -37,7 +36,7 @@ func add(rootGoitPath, path string, index *store.Index) error {
 	if err != nil {
 		return err
 	}
-	cleanedRelPath := strings.ReplaceAll(relPath, `\`, "/") // replace backslash with slash
+	cleanedRelPath := filepath.ToSlash(relPath) // the separator of the host system, not every backslash
 	byteRelPath := []byte(cleanedRelPath)
 
 	// nothing to do if the same entry is already registered
@@ -83,7 +82,7 @@ var addCmd = &cobra.Command{
 				// If the file does not exist but is registered in the index, delete it from the index
 				// but not delete here, just check it
 				cleanedArg := filepath.Clean(arg)
-				cleanedArg = strings.ReplaceAll(cleanedArg, `\`, "/")
+				cleanedArg = filepath.ToSlash(cleanedArg)
 				_, _, isEntryFound := client.Idx.GetEntry([]byte(cleanedArg))
 				if !isEntryFound && !client.Idx.IsRegisteredAsDirectory(cleanedArg) {
 					return fmt.Errorf(`path "%s" did not match any files`, arg)
@@ -94,7 +93,7 @@ var addCmd = &cobra.Command{
 		for _, arg := range args {
 			// check if the arg is the target of excluding path
 			cleanedArg := filepath.Clean(arg)
-			cleanedArg = strings.ReplaceAll(cleanedArg, `\`, "/")
+			cleanedArg = filepath.ToSlash(cleanedArg)
 			if client.Ignore.IsIncluded(cleanedArg, client.Idx) {
 				continue
 			}
@@ -146,7 +145,7 @@ var addCmd = &cobra.Command{
 					if err != nil {
 						return fmt.Errorf("fail to get relative path: %w", err)
 					}
-					if client.Ignore.IsIncluded(strings.ReplaceAll(relPath, `\`, "/"), client.Idx) {
+					if client.Ignore.IsIncluded(filepath.ToSlash(relPath), client.Idx) {
 						continue
 					}
 
